@@ -393,7 +393,7 @@ def check_c10(tier, seed):
                     pass
                 v.case = inline_stream(v.case); ck.add(v, 'single_dec')
         rounds += 1; cases = []
-        if tier == 'quick' or ck.time_left() < 300: break
+        if tier == 'quick' or rounds >= ck.rounds: break
     ck.ev.extra['exploration_crash_sites'] = sites
     rc = ck.finish(); cleanup_streams(); return rc
 
@@ -770,13 +770,16 @@ def check_c16(tier, seed):
                 for v in vs: ck.add(v, 'single16')
         consume(cases); enumerated += len(cases)
         if tier != 'quick':
-            while rest and ck.time_left() > 240:
+            n_rest = len(rest)
+            if ck.rounds > 0: rest = rest[:ck.rounds * 2400]   # a fixed share of the remaining k (VERIF_ROUNDS scales it; VERIF_ROUNDS=0 enumerates every k)
+            complete = len(rest) == n_rest
+            while rest:
                 chunk, rest = rest[:400], rest[400:]
                 cs = []
                 for k in chunk:
                     c = copy.deepcopy(base); c['mem'] = {'alloc_fail_at': k}; c['_phase'] = phase(k); cs.append(c)
                 consume(cs); enumerated += len(cs)
-            ck.ev.extra['exhaustive'] = (not rest)
+            ck.ev.extra['exhaustive'] = complete
     # decoder: all k
     st = make_streams(['base8'], ck)
     if 'base8' in st:
